@@ -153,6 +153,11 @@ def run(ctx):
     from .c10 import rule_charge_before_grow
     rule_charge_before_grow(ctx, mir, rid="R11.6")
 
+    # ------------------------------------------------------------------ R11.7 (shared with C10 R10.2)
+    # which flag governs a failure is decided by the error's kind: a memory error must stay a MemoryLimitExceeded
+    from .c10 import rule_limit_errors
+    rule_limit_errors(ctx, mir, rid="R11.7")
+
     ctx.not_decided += ["the concatenation equality itself for every failure index (run-time positions)", "the two documented exceptions (content being removed; text handler failing on a later chunk of a partly emitted text node)"]
     return ("CFG path rules (dominance / must-pass-through, exhaustive over all paths of the MIR control-flow graphs) on "
             "TransformStream::write/end, Dispatcher::{try_produce_token_from_lexeme,flush_for_bail_out,run_bail_out_handlers,finish}; "
